@@ -202,6 +202,7 @@ class Interp(object):
     self.stack = []
     self.return_shapes = {}      # id(Return node) -> joined Val, over all contexts
     self.regex_uses = []         # (regex name, form) for the evidence
+    self._loops = []
 
   # ---------------------------------------------------------------- calls
   def call(self, name, args):
@@ -281,8 +282,10 @@ class Interp(object):
         not any(isinstance(s, ast.Return) for s in body[:-1])
 
   # ---------------------------------------------------------------- statements
+  # block/stmt return (env at fall-through or None, [returned Val], yielded Val or None); envs
+  # leaving through `break` / `continue` are collected in self._brk / self._cont of the innermost
+  # loop being interpreted.
   def block(self, stmts, env, fi):
-    """-> (env at fall-through or None, [returned Val], yielded Val or None)"""
     rets, yields = [], None
     for s in stmts:
       if env is None:
@@ -292,9 +295,32 @@ class Interp(object):
       yields = join(yields, y) if y is not None else yields
     return env, rets, yields
 
+  def _loop_body(self, body, env, fi):
+    """One abstract iteration: (env at the end of the body incl. `continue`, env leaving through
+    `break`, rets, yields)."""
+    self._loops.append({"brk": None, "cont": None})
+    try:
+      o, r, y = self.block(body, env, fi)
+      fr = self._loops[-1]
+    finally:
+      self._loops.pop()
+    return env_join(o, fr["cont"]), fr["brk"], r, y
+
   def stmt(self, s, env, fi):
     if isinstance(s, ast.Expr) and isinstance(s.value, ast.Constant):
       return env, [], None
+    if isinstance(s, ast.Pass):
+      return env, [], None
+    if isinstance(s, ast.Break):
+      if not self._loops:
+        raise AnalysisError("identifiers: break outside a loop")
+      self._loops[-1]["brk"] = env_join(self._loops[-1]["brk"], env)
+      return None, [], None
+    if isinstance(s, ast.Continue):
+      if not self._loops:
+        raise AnalysisError("identifiers: continue outside a loop")
+      self._loops[-1]["cont"] = env_join(self._loops[-1]["cont"], env)
+      return None, [], None
     if isinstance(s, ast.Expr) and isinstance(s.value, ast.Yield):
       return env, [], self.ev(s.value.value, env)
     if isinstance(s, ast.Assign) and len(s.targets) == 1 and isinstance(s.targets[0], ast.Name):
@@ -346,11 +372,10 @@ class Interp(object):
         exit_env = env_join(exit_env, ef)
         if et is None:
           break
-        o, r, y = self.block(s.body, et, fi)
+        o, brk, r, y = self._loop_body(s.body, et, fi)
         rets.extend(r)
         yields = join(yields, y) if y is not None else yields
-        if any(isinstance(x, (ast.Break, ast.Continue)) for b in s.body for x in ast.walk(b)):
-          raise AnalysisError("identifiers: break/continue are outside the supported subset")
+        exit_env = env_join(exit_env, brk)
         if o is None:
           break
         head = env_join(head, o)
@@ -372,11 +397,10 @@ class Interp(object):
       else:
         raise AnalysisError("identifiers: loop over %s is outside the supported subset"
                             % it.kind)
-      if any(isinstance(x, (ast.Break, ast.Continue)) for b in s.body for x in ast.walk(b)):
-        raise AnalysisError("identifiers: break/continue are outside the supported subset")
       head = env
       rets, yields = [], None
       seen = set()
+      exit_env = None
       for _ in range(12):
         k = env_key(head)
         if k in seen:
@@ -384,15 +408,16 @@ class Interp(object):
         seen.add(k)
         e = head.copy()
         e[s.target.id] = elem
-        o, r, y = self.block(s.body, e, fi)
+        o, brk, r, y = self._loop_body(s.body, e, fi)
         rets.extend(r)
         yields = join(yields, y) if y is not None else yields
+        exit_env = env_join(exit_env, brk)
         if o is None:
           break
         head = env_join(head, o)
       else:
         raise AnalysisError("identifiers: for loop did not stabilise")
-      return (None if infinite else head), rets, yields
+      return env_join(None if infinite else head, exit_env), rets, yields
     if isinstance(s, ast.Expr) and isinstance(s.value, ast.Call) and \
         isinstance(s.value.func, ast.Attribute) and \
         s.value.func.attr in ("add", "append", "update", "discard", "extend"):
@@ -423,6 +448,21 @@ class Interp(object):
     if isinstance(t, ast.UnaryOp) and isinstance(t.op, ast.Not):
       a, b = self.cond(t.operand, env)
       return b, a
+    if isinstance(t, ast.BoolOp):
+      # short-circuit evaluation, left to right
+      is_and = isinstance(t.op, ast.And)
+      cur, other = env, None
+      for v in t.values:
+        if cur is None:
+          break
+        et, ef = self.cond(v, cur)
+        if is_and:
+          other = env_join(other, ef)
+          cur = et
+        else:
+          other = env_join(other, et)
+          cur = ef
+      return (cur, other) if is_and else (other, cur)
     if isinstance(t, ast.Name):
       v = self.lookup(t.id, env)
       if v.kind == "bool":
@@ -789,19 +829,29 @@ def _helpers_with_avoid(w, ip):
   return out
 
 
-def _guard_ok(test, cand, avoid, shape):
-  """test is `<cand>.upper() not in <avoid>` or, for a candidate without lower-case letters,
-  `<cand> not in <avoid>`."""
-  if not (isinstance(test, ast.Compare) and len(test.ops) == 1 and
-          isinstance(test.ops[0], ast.NotIn) and text(test.comparators[0]) == avoid):
-    return False
-  l = text(test.left)
-  if l == "%s.upper()" % cand:
+def _not_in_avoid(v, cand, avoid, at, shape, facts):
+  """The facts known where the candidate is returned include `<cand>.upper() not in <avoid>` or,
+  for a candidate without lower-case letters, `<cand> not in <avoid>`."""
+  def cmp_(left):
+    return v.atom(ast.Compare(left=left, ops=[ast.In()],
+                              comparators=[ast.Name(id=avoid, ctx=ast.Load())]), True, at=at)
+  up = ast.Call(func=ast.Attribute(value=cand, attr="upper", ctx=ast.Load()), args=[], keywords=[])
+  if (cmp_(up)[0], False) in facts:
     return True
-  if l == cand and shape is not None and shape.kind == "str":
+  if (cmp_(cand)[0], False) in facts and shape is not None and shape.kind == "str":
     s = shape.s
     return s.alpha.subset_of(ASCII) and s.alpha.disjoint(LOWER)
   return False
+
+
+def _arms_of(v, value, at, facts):
+  """[(candidate expr, facts)] of a returned value: conditional expressions are split, locals
+  that merely name the value are followed."""
+  e, at2 = v.resolve(value, at=at)
+  if isinstance(e, ast.IfExp):
+    return _arms_of(v, e.body, at2, facts | v.test_facts(e.test, True, at=at2)) + \
+        _arms_of(v, e.orelse, at2, facts | v.test_facts(e.test, False, at=at2))
+  return [(e, at2, facts)]
 
 
 def r2_avoid(run, w, ip):
@@ -810,18 +860,25 @@ def r2_avoid(run, w, ip):
   mod = w.repo.module(M)
   helpers = _helpers_with_avoid(w, ip)
   up = w.repo.func(M + "._uppercase")
+  uv = H.View(w.fn_of(up))
   rets = [s for s in walk_no_nested(up.node) if isinstance(s, ast.Return)]
   p = up.params()[0]
-  ok = len(rets) == 1 and isinstance(rets[0].value, ast.SetComp) and \
-      len(rets[0].value.generators) == 1 and not rets[0].value.generators[0].ifs and \
-      text(rets[0].value.generators[0].iter) == p and \
-      text(rets[0].value.elt) == "%s.upper()" % text(rets[0].value.generators[0].target)
+  ok = len(rets) == 1
+  if ok:
+    try:
+      c = uv.collection(rets[0].value)
+    except AnalysisError:
+      c = None
+    ok = c is not None and c.kind == "set" and not c.conds and c.iter_text == p and \
+        c.value == "_v0.upper()" and \
+        not [d for d, names in uv._gens().items() if p in names]
   run.ob(R2, up.qualname, "return {name.upper() for name in %s}" % p, "the avoid set is compared "
          "case-insensitively: every name in it is upper-cased, none is dropped", ok, fi=up)
   for name in sorted(helpers):
     fi = mod.functions[name]
     av = helpers[name]
     fn = w.fn_of(fi)
+    v = H.View(fn)
     cfg = fn.cfg
     if name.startswith("pick_") or name == "_gen_ident":
       # the avoid set is upper-cased before anything uses it
@@ -834,43 +891,30 @@ def r2_avoid(run, w, ip):
         run.ob(R2, fi.qualname, "%s = _uppercase(%s) before any use" % (av, av),
                "existing names are compared without regard to case", bool(ups) and
                all(cfg.dominated_by(u, ups) for u in uses), fi=fi)
-    for s in walk_no_nested(fi.node):
-      if not isinstance(s, ast.Return) or s.value is None:
+    if name == "pick_col_ident_list":
+      continue        # returns the list of picks (R3)
+    for n in cfg.nodes:
+      s = n.stmt
+      if n.kind != "return" or s.value is None:
         continue
-      arms = []     # (candidate expr, guard test or None)
-      def collect(e, guard):
-        if isinstance(e, ast.IfExp):
-          collect(e.body, ("pos", e.test))
-          collect(e.orelse, ("neg", e.test))
-        else:
-          arms.append((e, guard))
-      collect(s.value, None)
-      for (e, guard) in arms:
+      for (e, at, facts) in _arms_of(v, s.value, n.id, v.cfg_facts(n.id)):
         if isinstance(e, ast.Call) and dotted(e.func) in helpers:
           # delegated to a helper that receives the same avoid set
           callee = dotted(e.func)
-          cps = mod.functions[callee].params()
-          passed = [text(a) for i, a in enumerate(e.args)
-                    if i < len(cps) and cps[i] == helpers[callee]] + \
-                   [text(k.value) for k in e.keywords if k.arg == helpers[callee]]
+          b = H.bind_args(e, mod.functions[callee].params()) or {}
+          passed = b.get(helpers[callee])
           run.ob(R2, fi.qualname, short(e), "the helper that picks the name receives this "
-                 "function's avoid set", passed == [av], fi=fi, node=e)
+                 "function's avoid set", isinstance(passed, ast.Name) and passed.id == av,
+                 fi=fi, node=e)
           continue
-        if not isinstance(e, ast.Name):
+        if not isinstance(e, ast.Name) and not (isinstance(e, ast.BinOp) or
+                                                isinstance(e, ast.Call)):
           raise AnalysisError("%s: return value outside the supported idioms: %s"
                               % (fi.qualname, short(e)))
-        if name == "pick_col_ident_list":
-          continue        # returns the list of picks (R3)
         shape = ip.return_shapes.get(id(s))
-        ok = False
-        if guard is not None and guard[0] == "pos":
-          ok = _guard_ok(guard[1], e.id, av, shape)
-        else:
-          chain = [(x, fld) for (x, fld) in enclosing_chain(fi.node, s) if isinstance(x, ast.If)]
-          if chain and chain[-1][1] == "body":
-            ok = _guard_ok(chain[-1][0].test, e.id, av, shape)
-        run.ob(R2, fi.qualname, "return %s" % e.id, "the candidate is returned only when its "
-               "upper-cased form is not in the avoid set", ok, fi=fi, node=s)
+        ok = _not_in_avoid(v, e, av, at, shape, facts)
+        run.ob(R2, fi.qualname, "return %s" % short(e, 40), "the candidate is returned only when "
+               "its upper-cased form is not in the avoid set", ok, fi=fi, node=s)
 
 
 def r3_batch(run, w, ip):
@@ -878,183 +922,307 @@ def r3_batch(run, w, ip):
                 "before the next pick and returns exactly the picks", floor=4)
   fi = w.repo.func(M + ".pick_col_ident_list")
   fn = w.fn_of(fi)
+  v = H.View(fn)
   ps = fi.params()
-  loops = [s for s in fi.node.body if isinstance(s, ast.For) and text(s.iter) == ps[0]]
-  if len(loops) != 1:
-    raise AnalysisError("pick_col_ident_list: one loop over the requested names expected")
-  lp = loops[0]
   cfg = fn.cfg
   picks = [(n, c) for (n, c, nm) in fn.calls() if nm == "pick_col_ident"]
-  ok = len(picks) == 1 and isinstance(picks[0][0].stmt, ast.Assign) and \
-      picks[0][0].stmt.value is picks[0][1] and text(picks[0][1].args[0]) == text(lp.target) and \
-      [text(k.value) for k in picks[0][1].keywords if k.arg == "avoid"] + \
-      [text(a) for a in picks[0][1].args[1:2]] == [ps[1]]
+  ok = len(picks) == 1
+  lp = None
+  if ok:
+    pn, pc = picks[0]
+    loops = [l for l in v.enclosing_loops(pn.stmt) if isinstance(l, ast.For)]
+    ok = len(loops) == 1 and isinstance(loops[0].target, ast.Name) and \
+        v.t(loops[0].iter) == ps[0] and not loops[0].orelse
+    if ok:
+      lp = loops[0]
+      tm = v.loop_map(lp)
+      b = H.bind_args(pc, w.repo.func(M + ".pick_col_ident").params()) or {}
+      ok = v.t(b.get("ident"), tm) == "_v0" and isinstance(b.get("avoid"), ast.Name) and \
+          b["avoid"].id == ps[1] and v.runs_for_all(lp, pc)
   run.ob(R3, fi.qualname, "ident = pick_col_ident(<requested>, avoid=%s)" % ps[1],
          "each requested name is picked against the growing avoid set", ok, fi=fi)
   if not ok:
     return
-  pv = text(picks[0][0].stmt.targets[0])
-  adds = {n.id for (n, c, nm) in fn.calls() if nm == "%s.add" % ps[1] and len(c.args) == 1 and
-          text(c.args[0]) == "%s.upper()" % pv}
-  heads = {n.id for n in cfg.nodes if n.stmt is lp and n.kind == "for"}
-  esc = cfg.path(picks[0][0].id, heads | {cfg.exit.id}, removed=adds, after=True)
-  run.ob(R3, fi.qualname, "%s.add(%s.upper()) after every pick" % (ps[1], pv),
+  heads = {tm.head}
+  is_pick = lambda e: e is pc
+  adds = set()
+  for (n, c, nm) in fn.calls():
+    if nm == "%s.add" % ps[1] and len(c.args) == 1:
+      a = v.res(c.args[0])
+      if isinstance(a, ast.Call) and isinstance(a.func, ast.Attribute) and a.func.attr == "upper" \
+          and not a.args and v.denotes(a.func.value, is_pick, at=v.point_of(c)):
+        adds.add(n.id)
+  esc = cfg.path(pn.id, heads | {cfg.exit.id}, removed=adds, after=True)
+  run.ob(R3, fi.qualname, "%s.add(<pick>.upper()) after every pick" % ps[1],
          "two ids chosen in the same batch differ case-insensitively", bool(adds) and esc is None,
          witness=cfg.describe_path(esc) if esc else None, fi=fi)
   apps = [(n, c) for (n, c, nm) in fn.calls() if isinstance(c.func, ast.Attribute) and
-          c.func.attr == "append" and len(c.args) == 1 and text(c.args[0]) == pv]
+          c.func.attr == "append" and len(c.args) == 1 and isinstance(c.func.value, ast.Name) and
+          v.denotes(c.args[0], is_pick)]
   rets = [s for s in walk_no_nested(fi.node) if isinstance(s, ast.Return)]
-  ok = len(apps) == 1 and len(rets) == 1 and text(rets[0].value) == text(apps[0][1].func.value) \
-      and cfg.path(picks[0][0].id, heads | {cfg.exit.id}, removed={apps[0][0].id},
-                   after=True) is None
-  run.ob(R3, fi.qualname, "result.append(%s); return result" % pv, "one id per requested name, "
+  ok = len(apps) == 1 and len(rets) == 1 and v.t(rets[0].value) == apps[0][1].func.value.id \
+      and cfg.path(pn.id, heads | {cfg.exit.id}, removed={apps[0][0].id}, after=True) is None
+  run.ob(R3, fi.qualname, "result.append(<pick>); return result", "one id per requested name, "
          "in order, each a result of pick_col_ident (R1 applies to each)", ok, fi=fi)
-  du = DefUse(fn)
-  rv = text(rets[0].value) if rets else None
-  inits = E.local_defs(fi.node, rv) if rv else []
+  rv = apps[0][1].func.value.id if apps else None
+  sites = [d for d, names in v._gens().items() if rv in names] if rv else []
+  init = v._plain_value(rv, sites[0]) if len(sites) == 1 else None
   run.ob(R3, fi.qualname, "%s starts empty and is only appended to" % rv,
-         "nothing but picks is returned", len(inits) == 1 and text(inits[0]) == "[]" and
-         du.muts.get(rv, set()) == {apps[0][0].id} if apps else False, fi=fi)
+         "nothing but picks is returned", init is not None and H._empty_container(init) == "list"
+         and v.du.muts.get(rv, set()) == {apps[0][0].id} if apps else False, fi=fi)
+
+
+def _kw_or_pos(call, params, name):
+  b = H.bind_args(call, params)
+  return (b or {}).get(name)
+
+
+def _adds_all(v, fn, sv, over, value, outer_map=None):
+  """CFG nodes that put `value` (placeholder text) of every element of `over` into the set `sv`:
+  the initial value of sv, sv.update(<collection>), sv |= <collection>, or a loop sv.add(..)."""
+  out = set()
+  cfg = fn.cfg
+
+  def matches(c):
+    if c is None or c.conds or c.kind not in ("set", "list"):
+      return False
+    it = c.iter_text
+    if outer_map:
+      it = text(H._Renamer(H._versioned(outer_map)).visit(ast.parse(it, mode="eval").body)) \
+          if "@" not in it else it
+    return it == over and c.value == value
+
+  for n in cfg.nodes:
+    s = n.stmt
+    if n.kind != "stmt":
+      continue
+    src = None
+    if isinstance(s, ast.Assign) and len(s.targets) == 1 and isinstance(s.targets[0], ast.Name) \
+        and s.targets[0].id == sv:
+      src = s.value
+    elif isinstance(s, ast.AugAssign) and isinstance(s.target, ast.Name) and s.target.id == sv \
+        and isinstance(s.op, ast.BitOr):
+      src = s.value
+    elif isinstance(s, ast.Expr) and isinstance(s.value, ast.Call) and \
+        isinstance(s.value.func, ast.Attribute) and isinstance(s.value.func.value, ast.Name) and \
+        s.value.func.value.id == sv and len(s.value.args) == 1:
+      if s.value.func.attr == "update":
+        src = s.value.args[0]
+      elif s.value.func.attr == "add":
+        loops = [l for l in v.enclosing_loops(s) if isinstance(l, ast.For)]
+        if loops:
+          l = loops[-1]
+          tm = v.loop_map(l)
+          it = v.t(l.iter, outer_map) if outer_map else v.t(l.iter)
+          m2 = dict(tm)
+          if outer_map:
+            m2.update(H._versioned(outer_map))
+          if it == over and v.t(s.value.args[0], H.LoopMap(m2, tm.head)) == value and \
+              v.runs_for_all(l, s):
+            out.add(v.loop_head(l))
+        continue
+    if src is not None:
+      try:
+        c = v.collection(src)
+      except AnalysisError:
+        c = None
+      if c is not None and outer_map:
+        c2 = c
+        it = v.t(c.iter, outer_map, at=n.id)
+        ok = not c2.conds and c2.kind in ("set", "list") and it == over and c2.value == value
+      else:
+        ok = matches(c)
+      if ok:
+        out.add(n.id)
+  return out
 
 
 def r4_call_sites(run, w):
   R4 = run.rule("C21-R4", "engine call sites pass complete avoid sets and record each pick of a "
                 "batch", floor=8)
+  idmod = w.repo.module(M)
   # (a) every pick_col_ident_list call avoids 'id'
   n = 0
   for fi in w.repo.all_functions():
     if fi.module.name == M:
       continue
     fn = w.fn_of(fi)
-    for (nd, c, nm) in fn.calls():
-      if endswith(nm, "identifiers.pick_col_ident_list"):
-        n += 1
-        av = [k.value for k in c.keywords if k.arg == "avoid"] + list(c.args[1:2])
-        ok = len(av) == 1 and isinstance(av[0], ast.Set) and \
-            any(isinstance(x, ast.Constant) and x.value == "id" for x in av[0].elts)
-        run.ob(R4, fi.qualname, short(c), "'id' is taken in every table although it is not "
-               "among the column records", ok, fi=fi, node=c)
+    hits = [(nd, c) for (nd, c, nm) in fn.calls()
+            if endswith(nm, "identifiers.pick_col_ident_list")]
+    if not hits:
+      continue
+    v = H.View(fn)
+    for (nd, c) in hits:
+      n += 1
+      av = _kw_or_pos(c, idmod.functions["pick_col_ident_list"].params(), "avoid")
+      av = v.res(av) if av is not None else None
+      ok = isinstance(av, ast.Set) and \
+          any(isinstance(x, ast.Constant) and x.value == "id" for x in av.elts)
+      run.ob(R4, fi.qualname, short(c), "'id' is taken in every table although it is not "
+             "among the column records", ok, fi=fi, node=c)
   if n < 2:
     raise AnalysisError("fewer than 2 call sites of pick_col_ident_list found")
   # (b) _pick_col_name builds the avoid set from the table, 'id', sibling summary tables
-  fn = w.fn("useractions.UserActions._pick_col_name")
+  fn = H.xfn(w, "useractions.UserActions._pick_col_name", keep=KEEP)
   fi = fn.fi
+  v = H.View(fn)
   cfg = fn.cfg
   ps = fi.params()       # cls, table_rec, col_id, old_col_id, avoid_extra
   picks = [(nd, c) for (nd, c, nm) in fn.calls() if endswith(nm, "identifiers.pick_col_ident")]
   if len(picks) != 1:
     raise AnalysisError("_pick_col_name: one pick_col_ident call expected")
   pn, pc = picks[0]
-  av = [k.value for k in pc.keywords if k.arg == "avoid"] + list(pc.args[1:2])
-  if len(av) != 1 or not isinstance(av[0], ast.Name):
+  av = _kw_or_pos(pc, idmod.functions["pick_col_ident"].params(), "avoid")
+  if not isinstance(av, ast.Name) or v.value_at(av.id, pn.id) is not None:
     raise AnalysisError("_pick_col_name: avoid argument is not a local set")
-  sv = av[0].id
-  def nodes_where(pred):
-    return {nd.id for nd in cfg.nodes if nd.stmt is not None and nd.kind in ("stmt", "for")
-            and pred(nd)}
-  init = nodes_where(lambda nd: isinstance(nd.stmt, ast.Assign) and
-                     text(nd.stmt.targets[0]) == sv and
-                     text(nd.stmt.value) in ("set((c.colId for c in %s.columns))" % ps[1],
-                                             "{c.colId for c in %s.columns}" % ps[1]))
+  sv = av.id
+  init = _adds_all(v, fn, sv, "%s.columns" % ps[1], "_v0.colId")
   run.ob(R4, fi.qualname, "%s = set(c.colId for c in %s.columns)" % (sv, ps[1]),
          "all existing columns of the table are avoided", bool(init) and
          cfg.dominated_by(pn.id, init), fi=fi)
-  addid = nodes_where(lambda nd: nd.kind == "stmt" and text(nd.stmt) == "%s.add('id')" % sv)
+  addid = {nd.id for (nd, c, nm) in fn.calls() if nm == "%s.add" % sv and len(c.args) == 1 and
+           isinstance(v.res(c.args[0]), ast.Constant) and v.res(c.args[0]).value == "id"}
+  addid |= {d for d in ({x for x, names in v._gens().items() if sv in names})
+            if isinstance(v._plain_value(sv, d), (ast.Set, ast.Call)) and
+            any(isinstance(x, ast.Constant) and x.value == "id"
+                for x in ast.walk(v._plain_value(sv, d)))}
   run.ob(R4, fi.qualname, "%s.add('id')" % sv, "'id' is avoided", bool(addid) and
          cfg.dominated_by(pn.id, addid), fi=fi)
-  sib = [s for s in fi.node.body if isinstance(s, ast.For) and
-         text(s.iter) == "%s.summaryTables" % ps[1] and len(s.body) == 1 and
-         text(s.body[0]) == "%s.update((c.colId for c in %s.columns))" % (sv, text(s.target))]
-  sibn = {nd.id for nd in cfg.nodes if sib and nd.stmt is sib[0]}
+  sibn = set()
+  for l in [x for x in walk_no_nested(fn.node) if isinstance(x, ast.For)]:
+    if not isinstance(l.target, ast.Name) or v.t(l.iter) != "%s.summaryTables" % ps[1]:
+      continue
+    tm = v.loop_map(l, prefix="_t")
+    inner = _adds_all(v, fn, sv, "_t0.columns", "_v0.colId", outer_map=tm)
+    inner = {i for i in inner if any(z is cfg.nodes[i].stmt for b in l.body for z in ast.walk(b))}
+    if inner and all(v.runs_for_all(l, cfg.nodes[i].stmt) for i in inner):
+      sibn.add(tm.head)
   run.ob(R4, fi.qualname, "for t in %s.summaryTables: %s.update(c.colId for c in t.columns)"
          % (ps[1], sv), "a formula column shared by sibling summary tables cannot take a name "
          "one of them already uses", bool(sibn) and cfg.dominated_by(pn.id, sibn), fi=fi)
-  du = DefUse(fn)
   removers = []
-  for nid in du.muts.get(sv, set()):
+  for nid in v.du.muts.get(sv, set()):
     for c in calls_in(cfg.nodes[nid].exprs):
       if isinstance(c.func, ast.Attribute) and text(c.func.value) == sv and \
           c.func.attr in ("discard", "remove", "pop", "clear", "difference_update",
                           "intersection_update"):
         removers.append(c)
   ok = all(c.func.attr == "discard" and len(c.args) == 1 and len(ps) > 3 and
-           text(c.args[0]) == ps[3] for c in removers) and \
-      len(du.defs.get(sv, set())) == 1
+           v.t(c.args[0]) == ps[3] for c in removers) and \
+      len([d for d, names in v._gens().items() if sv in names]) == 1
   run.ob(R4, fi.qualname, "only %s is ever removed from %s" % (ps[3] if len(ps) > 3 else "?", sv),
          "nothing but the column's own current name is exempt from avoidance", ok, fi=fi)
-  ext = nodes_where(lambda nd: nd.kind == "stmt" and len(ps) > 4 and
-                    text(nd.stmt) == "%s.update(%s)" % (sv, ps[4]))
+  ext = {nd.id for (nd, c, nm) in fn.calls() if nm == "%s.update" % sv and len(c.args) == 1 and
+         len(ps) > 4 and v.t(c.args[0]) == ps[4]}
   run.ob(R4, fi.qualname, "%s.update(%s)" % (sv, ps[4] if len(ps) > 4 else "?"),
          "names picked earlier in the same bundle are avoided", bool(ext) and
          bool(cfg.reach_after(ext) & {pn.id}), fi=fi)
   # (c) batches: picks are recorded before the next pick
-  a1 = w.fn("useractions.UserActions._adjust_one_column_update")
+  a1 = H.xfn(w, "useractions.UserActions._adjust_one_column_update", keep=KEEP)
+  v1 = H.View(a1)
   aps = a1.fi.params()
   calls = [(nd, c) for (nd, c, nm) in a1.calls() if endswith(nm, "self._pick_col_name")]
   ok = False
   if len(calls) == 1:
     nd, c = calls[0]
-    extra = [text(k.value) for k in c.keywords if k.arg == "avoid_extra"]
-    tgt = text(nd.stmt.targets[0]) if isinstance(nd.stmt, ast.Assign) else None
-    adds = {m.id for (m, c2, nm) in a1.calls() if extra and nm == "%s.add" % extra[0] and
-            len(c2.args) == 1 and text(c2.args[0]) == tgt}
-    ok = len(extra) == 1 and extra[0] in aps and bool(adds) and \
+    b = H.bind_args(c, ps[1:]) or {}
+    extra = v1.alias_root(b["avoid_extra"]) if "avoid_extra" in b else None
+    tgt = text(nd.stmt.targets[0]) if isinstance(nd.stmt, ast.Assign) and \
+        nd.stmt.value is c else None
+    adds = set()
+    for (m, c2, nm) in a1.calls():
+      if isinstance(extra, ast.Name) and isinstance(c2.func, ast.Attribute) and \
+          c2.func.attr == "add" and len(c2.args) == 1 and \
+          isinstance(v1.alias_root(c2.func.value), ast.Name) and \
+          v1.alias_root(c2.func.value).id == extra.id and \
+          (v1.denotes(c2.args[0], lambda e: e is c) or
+           (tgt is not None and text(c2.args[0]) == tgt)):
+        adds.add(m.id)
+    ok = isinstance(extra, ast.Name) and extra.id in aps and bool(adds) and \
         a1.cfg.postdominated_by(nd.id, adds)
   run.ob(R4, a1.qualname, "avoid_extra=<set>; <set>.add(<picked colId>)", "a column id picked "
          "for one update of a bundle is avoided by the following ones", ok, fi=a1.fi)
-  ucr = w.fn("useractions.UserActions._updateColumnRecords")
-  calls = [c for (nd, c, nm) in ucr.calls() if endswith(nm, "self._adjust_one_column_update")]
+  ucr = H.xfn(w, "useractions.UserActions._updateColumnRecords", keep=KEEP)
+  vu = H.View(ucr)
+  calls = [(nd, c) for (nd, c, nm) in ucr.calls()
+           if endswith(nm, "self._adjust_one_column_update")]
   ok = False
-  if len(calls) == 1 and len(calls[0].args) >= 3 and isinstance(calls[0].args[2], ast.Name):
-    sname = calls[0].args[2].id
-    defs = E.local_defs(ucr.node, sname)
-    lp = H.innermost_loop(ucr.node, H.stmt_of(ucr.node, calls[0]))
-    ok = len(defs) == 1 and text(defs[0]) == "set()" and lp is not None and \
-        not any(isinstance(x, ast.Assign) and text(x.targets[0]) == sname
-                for b in lp.body for x in ast.walk(b))
+  if len(calls) == 1:
+    nd, c = calls[0]
+    b = H.bind_args(c, aps[1:]) or {}
+    sarg = vu.alias_root(b[aps[3]]) if aps[3] in b else None
+    if isinstance(sarg, ast.Name):
+      defs = vu.reaching(sarg.id, nd.id)
+      lps = vu.enclosing_loops(nd.stmt)
+      inside = {x.id for x in ucr.cfg.nodes if x.stmt is not None and lps and
+                any(y is x.stmt for bb in lps[0].body for y in ast.walk(bb))}
+      ok = len(defs) == 1 and bool(lps) and not (set(defs) & inside) and \
+          next(iter(defs)) != vu.ENTRY and \
+          H._empty_container(vu._plain_value(sarg.id, next(iter(defs)))) == "set"
   run.ob(R4, ucr.qualname, "one avoid_colid_set shared by all _adjust_one_column_update calls",
          "the set of ids picked in the bundle is created once, outside the loop", ok, fi=ucr.fi)
-  utr = w.fn("useractions.UserActions._updateTableRecords")
+  utr = H.xfn(w, "useractions.UserActions._updateTableRecords", keep=KEEP)
+  vt = H.View(utr)
   cfg = utr.cfg
   picks = [(nd, c) for (nd, c, nm) in utr.calls()
            if endswith(nm, "identifiers.pick_table_ident")]
   if len(picks) < 2:
     raise AnalysisError("_updateTableRecords: two pick_table_ident calls expected")
   pick_nodes = {nd.id for nd, c in picks}
+  bases = set()
   for (nd, c) in picks:
-    tgt = text(nd.stmt.targets[0]) if isinstance(nd.stmt, ast.Assign) else None
-    av = [k.value for k in c.keywords if k.arg == "avoid"]
+    av = _kw_or_pos(c, idmod.functions["pick_table_ident"].params(), "avoid")
     base = None
-    if len(av) == 1 and isinstance(av[0], ast.Name):
-      base = av[0].id
-      d = E.local_defs(utr.node, base)
+    if av is not None:
+      e = vt.alias_root(av)
+      r = vt.res(e)
       # avoid = avoid_tableid_set - {rec.tableId}
-      if len(d) >= 1 and isinstance(d[-1], ast.BinOp) and isinstance(d[-1].op, ast.Sub) and \
-          isinstance(d[-1].left, ast.Name) and isinstance(d[-1].right, ast.Set) and \
-          len(d[-1].right.elts) == 1:
-        base = d[-1].left.id
-    adds = {m.id for (m, c2, nm) in utr.calls() if base and nm == "%s.add" % base and
-            len(c2.args) == 1 and text(c2.args[0]) == tgt}
+      if isinstance(r, ast.BinOp) and isinstance(r.op, ast.Sub) and \
+          isinstance(vt.alias_root(r.left, at=vt.resolve(e)[1]), ast.Name) and \
+          isinstance(r.right, ast.Set) and len(r.right.elts) == 1:
+        base = vt.alias_root(r.left, at=vt.resolve(e)[1]).id
+      elif isinstance(e, ast.Name):
+        base = e.id
+    if base:
+      bases.add(base)
+    adds = {m.id for (m, c2, nm) in utr.calls() if base and isinstance(c2.func, ast.Attribute) and
+            c2.func.attr == "add" and len(c2.args) == 1 and
+            isinstance(vt.alias_root(c2.func.value), ast.Name) and
+            vt.alias_root(c2.func.value).id == base and
+            vt.denotes(c2.args[0], lambda e, c=c: e is c)}
     esc = cfg.path(nd.id, (pick_nodes - {nd.id}) | {cfg.exit.id}, removed=adds, after=True) \
         if adds else [nd.id]
     # the same node may be re-reached in the next iteration: that also needs the add
     again = nd.id in cfg.reach_after({nd.id}, removed=adds) if adds else True
-    run.ob(R4, utr.qualname, "%s = pick_table_ident(.., avoid=%s); %s.add(%s)"
-           % (tgt, text(av[0]) if av else "?", base, tgt), "a table id picked in this bundle "
-           "(for a table or for a summary table renamed with it) is avoided by every later "
-           "pick", esc is None and not again, witness=cfg.describe_path(esc) if esc else None,
-           fi=utr.fi, node=c)
-  init = E.local_defs(utr.node, "avoid_tableid_set")
+    run.ob(R4, utr.qualname, "<id> = pick_table_ident(.., avoid=%s); %s.add(<id>)"
+           % (short(av, 40) if av is not None else "?", base), "a table id picked in this "
+           "bundle (for a table or for a summary table renamed with it) is avoided by every "
+           "later pick", esc is None and not again,
+           witness=cfg.describe_path(esc) if esc else None, fi=utr.fi, node=c)
+  ok = len(bases) == 1
+  if ok:
+    base = next(iter(bases))
+    sites = [d for d, names in vt._gens().items() if base in names]
+    ok = len(sites) == 1 and vt._plain_value(base, sites[0]) is not None and \
+        vt.t(vt._plain_value(base, sites[0]), at=sites[0]) in ("set(self._engine.tables)",
+                                                             "set(self._engine.tables.keys())")
   run.ob(R4, utr.qualname, "avoid_tableid_set = set(self._engine.tables)", "all existing table "
-         "ids are avoided", len(init) == 1 and text(init[0]) == "set(self._engine.tables)",
-         fi=utr.fi)
-  dat = w.fn("useractions.UserActions.doAddTable")
-  ok = any(endswith(nm, "identifiers.pick_table_ident") and
-           [text(k.value) for k in c.keywords if k.arg == "avoid"] ==
-           ["self._engine.tables.keys()"] for (nd, c, nm) in dat.calls())
+         "ids are avoided", ok, fi=utr.fi)
+  dat = H.xfn(w, "useractions.UserActions.doAddTable", keep=KEEP)
+  vd = H.View(dat)
+  ok = False
+  for (nd, c, nm) in dat.calls():
+    if endswith(nm, "identifiers.pick_table_ident"):
+      av = _kw_or_pos(c, idmod.functions["pick_table_ident"].params(), "avoid")
+      ok = ok or (av is not None and vd.t(av) in ("self._engine.tables.keys()",
+                                                   "set(self._engine.tables)",
+                                                   "self._engine.tables"))
   run.ob(R4, dat.qualname, "pick_table_ident(table_id, avoid=self._engine.tables.keys())",
          "a new table avoids every existing table id (built-in tables included)", ok, fi=dat.fi)
 
+
+KEEP = ("_pick_col_name", "_adjust_one_column_update", "_prepare_formula_renames",
+        "_do_doc_action", "_do_extra_doc_action", "_bulk_action_iter")
 
 I = "sandbox/grist/identifiers.py"
 U = "sandbox/grist/useractions.py"
